@@ -115,6 +115,10 @@ package sasl
            (<= (str.len (. r Service)) 256) (<= (str.len (. r Realm)) 256)
            (= wout (store (old wout) writer (str.++ (select (old wout) writer)
                 (enc (. r Login)) (enc (. r Password)) (enc (. r Service)) (enc (. r Realm))))))))
+  ; fields up to the limit (256 bytes inclusive) are not refused: the encoder gets as far as writing
+  (ensures within-limit-is-not-refused (=> (and (<= (str.len (. r Login)) 256) (<= (str.len (. r Password)) 256)
+                                                (<= (str.len (. r Service)) 256) (<= (str.len (. r Realm)) 256))
+                                           (>= (select wcalls writer) (+ (select (old wcalls) writer) 1))))
   (ensures over-limit-refused (=> (or (> (str.len (. r Login)) 256) (> (str.len (. r Password)) 256)
                                       (> (str.len (. r Service)) 256) (> (str.len (. r Realm)) 256))
       (and (not (= $r0 nil)) (= wout (old wout)) (= wcalls (old wcalls)))))
